@@ -105,3 +105,14 @@ def setup():
 
 # ---------------------------------------------------------------------------------------------------------------------
 # registered checks (see DESIGN.md section 4 for each)
+
+reg("C20", "c20",
+    "TLA+ spec Page.tla (Paginate, Walk) checked exhaustively by TLC; every TLC state replayed as a test vector against "
+    "the generated connections and the GraphQL handler",
+    "TLC enumerates every request (n, first, after, last, before) and every client walk (n, page size, direction) inside the "
+    "bounds and checks the window, flag, cursor, total and exactly-once-walk theorems on the specification; each state is then "
+    "executed against all seven generated connection functions and, end to end, against eight GraphQL lists served by the real "
+    "handler over real repositories, and must return exactly the page the specification prescribes.",
+    "Bounds: list length <= 5 (quick) / 7 (thorough), page sizes -1..6/8, cursors valid/foreign/malformed/absent. gqlgen, go-git "
+    "and bleve are trusted; the Go-side comparison code and TLC are trusted.",
+    "DESIGN.md section 4, C20")
